@@ -265,6 +265,178 @@ fn check_forced(case: &FCase, ctx: &mut Ctx) -> Verdict {
     Ok(())
 }
 
+
+// ------------------------------------------------------------------------------------------------
+// re-entrant acquire: the expression that builds a thread's instance acquires from the very same
+// wrapper (and may keep that reference) - one thread, no schedule involved
+
+use linked::InstancePerThread;
+
+thread_local! {
+    /// run once by the next instance construction on this thread
+    static REENTER: std::cell::RefCell<Option<Box<dyn FnOnce()>>> = const { std::cell::RefCell::new(None) };
+}
+
+#[derive(Default)]
+struct RLog {
+    next: AtomicU32,
+    created: Mutex<Vec<u32>>,
+    dropped: Mutex<Vec<u32>>,
+}
+
+#[linked::object]
+struct RObj {
+    id: u32,
+    log: Arc<RLog>,
+}
+
+fn r_make_id(log: &Arc<RLog>) -> u32 {
+    let id = log.next.fetch_add(1, Ordering::SeqCst);
+    log.created.lock().unwrap().push(id);
+    // user code running while this thread's instance is being built
+    let f = REENTER.with(|r| r.borrow_mut().take());
+    if let Some(f) = f {
+        f();
+    }
+    id
+}
+
+impl RObj {
+    fn new(log: Arc<RLog>) -> Self {
+        linked::new!(Self { id: r_make_id(&log), log: Arc::clone(&log) })
+    }
+}
+
+impl Drop for RObj {
+    fn drop(&mut self) {
+        self.log.dropped.lock().unwrap().push(self.id);
+    }
+}
+
+#[derive(Debug, Clone, Serialize, Deserialize)]
+enum ROp {
+    /// acquire; the instance construction (if one happens) re-enters `depth` levels deep, each
+    /// level acquiring from the same wrapper and keeping (or at once dropping) what it got
+    Acquire { depth: u8, keep: bool },
+    Clone(u16),
+    Drop(u16),
+}
+
+#[derive(Debug, Clone, Serialize, Deserialize)]
+struct RCase {
+    sync: bool,
+    ops: Vec<ROp>,
+}
+
+fn rcase_strategy() -> impl Strategy<Value = RCase> {
+    let op = prop_oneof![
+        4 => (0u8..=2, any::<bool>()).prop_map(|(depth, keep)| ROp::Acquire { depth, keep }),
+        2 => any::<u16>().prop_map(ROp::Clone),
+        4 => any::<u16>().prop_map(ROp::Drop),
+    ];
+    (any::<bool>(), prop::collection::vec(op, 1..10)).prop_map(|(sync, ops)| RCase { sync, ops })
+}
+
+macro_rules! reentrant_runner {
+    ($fname:ident, $wrapper:ident, $refty:ty) => {
+        fn $fname(case: &RCase, ctx: &mut Ctx) -> Verdict {
+            let kind = stringify!($wrapper);
+            let fl = |k: &str, msg: String| Failure::new(format!("C12/reentrant-acquire/{kind}/{k}"), format!("{msg}; ops={:?}", case.ops));
+            let log = Arc::new(RLog::default());
+            let wrapper = $wrapper::new(RObj::new(Arc::clone(&log)));
+            let live = |log: &RLog| log.created.lock().unwrap().len() as i64 - log.dropped.lock().unwrap().len() as i64;
+            let live0 = live(&log);
+            // every reference this thread holds (those handed out by acquire and those kept by
+            // re-entrant acquires)
+            let refs: std::rc::Rc<std::cell::RefCell<Vec<$refty>>> = std::rc::Rc::new(std::cell::RefCell::new(Vec::new()));
+            let mut reentered = false;
+            for (step, op) in case.ops.iter().enumerate() {
+                match op {
+                    ROp::Acquire { depth, keep } => {
+                        fn arm<W: Clone + 'static>(w: W, depth: u8, keep: bool, refs: std::rc::Rc<std::cell::RefCell<Vec<$refty>>>, acquire: fn(&W) -> $refty) {
+                            if depth == 0 {
+                                return;
+                            }
+                            REENTER.with(|r| {
+                                *r.borrow_mut() = Some(Box::new(move || {
+                                    arm(w.clone(), depth - 1, keep, std::rc::Rc::clone(&refs), acquire);
+                                    let inner = acquire(&w);
+                                    if keep {
+                                        refs.borrow_mut().push(inner);
+                                    }
+                                }));
+                            });
+                        }
+                        let had = !refs.borrow().is_empty();
+                        arm(wrapper.clone(), *depth, *keep, std::rc::Rc::clone(&refs), |w| w.acquire());
+                        let r = vcommon::catch(std::panic::AssertUnwindSafe(|| wrapper.acquire()));
+                        let armed_left = REENTER.with(|r| r.borrow_mut().take()).is_some();
+                        match r {
+                            Ok(r) => refs.borrow_mut().push(r),
+                            Err(m) => return Err(fl("acquire-panicked", format!("step {step}: acquire panicked: {m}"))),
+                        }
+                        if *depth > 0 && !had && !armed_left {
+                            reentered = true;
+                        }
+                    }
+                    ROp::Clone(i) => {
+                        let n = refs.borrow().len();
+                        if n > 0 {
+                            let c = refs.borrow()[vcommon::pick_index(*i, n)].clone();
+                            refs.borrow_mut().push(c);
+                        }
+                    }
+                    ROp::Drop(i) => {
+                        let n = refs.borrow().len();
+                        if n > 0 {
+                            let r = refs.borrow_mut().swap_remove(vcommon::pick_index(*i, n));
+                            drop(r);
+                        }
+                    }
+                }
+                // one instance per thread: every reference this thread holds is to the same instance
+                let ids: std::collections::BTreeSet<u32> = refs.borrow().iter().map(|r| r.id).collect();
+                if ids.len() > 1 {
+                    return Err(fl("two-instances-on-one-thread", format!("step {step}: the references held by one thread point to different instances {ids:?}")));
+                }
+                // and exactly that one instance is alive (besides what existed before the first acquire)
+                let expect = live0 + i64::from(!refs.borrow().is_empty());
+                let now = live(&log);
+                if now != expect {
+                    return Err(fl("live-instance-count", format!("step {step}: {now} instances alive, expected {expect} ({} references held, {live0} before the first acquire)", refs.borrow().len())));
+                }
+            }
+            refs.borrow_mut().clear();
+            if live(&log) != live0 {
+                return Err(fl("instance-outlives-its-last-reference", format!("{} instances alive after every reference was dropped, {live0} before the first acquire", live(&log))));
+            }
+            if let Err(m) = vcommon::catch(move || drop(wrapper)) {
+                return Err(fl("wrapper-drop-panicked", format!("dropping the wrapper panicked: {m}")));
+            }
+            let dropped = log.dropped.lock().unwrap().clone();
+            let mut d = dropped.clone();
+            d.sort_unstable();
+            d.dedup();
+            if d.len() != dropped.len() {
+                return Err(fl("instance-dropped-twice", format!("destructor log {dropped:?}")));
+            }
+            ctx.classify(kind);
+            if reentered {
+                ctx.classify("instance-construction-re-entered-acquire");
+                ctx.nontrivial();
+            }
+            Ok(())
+        }
+    };
+}
+
+reentrant_runner!(run_reentrant_local, InstancePerThread, linked::Ref<RObj>);
+reentrant_runner!(run_reentrant_sync, InstancePerThreadSync, linked::RefSync<RObj>);
+
+fn check_reentrant(case: &RCase, ctx: &mut Ctx) -> Verdict {
+    if case.sync { run_reentrant_sync(case, ctx) } else { run_reentrant_local(case, ctx) }
+}
+
 fn main() {
     linked::__verif::install_point_hook(Some(point_hook));
     let mut h = Harness::from_args("C12");
@@ -298,6 +470,14 @@ fn main() {
         "complete enumeration: 2..3 references aligned to one origin thread, each dropped on its own thread, started in order; each dropper either runs to completion at once or parks inside RefSync::drop just before its j-th point, j = 0..4, where the points are every acquisition and every release of the per-thread map lock (cfg(folo_verif) lock wrapper) and the named point after the last-reference check; the parked droppers are then resumed one at a time, in start order or in reverse - i.e. every way in which a prefix of one drop can overlap the whole of the others; oracle as in concurrent-drop. Non-trivial = at least one parked drop",
         all,
         check_forced,
+    );
+    let rcases = h.cases(20_000, 400_000);
+    h.section(
+        "reentrant-acquire",
+        "one thread, generated sequences of 1..9 operations on InstancePerThread / InstancePerThreadSync: acquire (the expression that builds the thread's instance re-enters acquire on the same wrapper 0..2 levels deep and keeps or at once drops what it got), clone a held reference, drop a held reference; after every operation all references held by the thread must point to one instance and exactly that instance must be alive; after the last drop nothing extra is alive, dropping the wrapper does not panic, no instance is destroyed twice. non-trivial = an instance construction that really re-entered acquire; distinct by serialised case",
+        rcases,
+        rcase_strategy(),
+        check_reentrant,
     );
     h.finish()
 }
